@@ -221,7 +221,7 @@ func returnsNilError(ret *ssa.Return) bool {
 	if len(ret.Results) == 0 {
 		return false
 	}
-	last := ret.Results[len(ret.Results)-1]
+	last := retLast(ret)
 	if !isErrorType(last.Type()) {
 		return false
 	}
